@@ -129,6 +129,11 @@ func runC14(s *kernel.Sim, prod bool) {
 		s.SetYield("handler", 3)
 	}
 	s.SetYield("op", 4)
+	if s.Choose("atomicyield", 2) == 1 {
+		// callers may be preempted right before an atomic operation (request id allocation)
+		seams.InstallTxnHook(s)
+		s.SetYield("atomic", 3)
+	}
 	if s.Choose("sched", 3) != 0 {
 		s.Sched = kernel.SchedPriority
 	}
